@@ -26,7 +26,8 @@ FOREIGN = [("  0 = B 120000", {"sync"}), ("  0 = TS 4", {"sync"}), ("  0 = A 5",
            ("  0 = S 2 5", {"instrument"}), ("  0 = E solo", {"instrument"}), ("  0 = E \"lyric x\"", {"events"}),
            ("  0 = E \"x\"", {"events", "instrument"}), ("  Resolution = 192", set()), ("  Name = \"x\"", set()), ("garbage", set()),
            ("", set()), ("  ", set()), ("  0 = S 64 10", set()), ("  0 = N 8 0", set()), ("  0 = N 9 48", set()), ("  0 = E two words", set()),
-           ("[Header]", set()), ("  0 = N 10 0", set()), ("  0 = S 0 5", set()), ("  0 = TS", set()), ("  0 = B x", set())]
+           ("[Header]", set()), ("  0 = N 10 0", set()), ("  0 = S 0 5", set()), ("  0 = TS", set()), ("  0 = B x", set()),
+           ("  }", set()), ("} ", set()), ("\t{", set()), (" { ", set()), ("{}", set())]
 
 
 def body_count(R):
